@@ -661,6 +661,24 @@ func (g *pg) fragName(td *typeDef) string {
 		base = proto.Pick(r, g.opNames) + upperFirst(proto.Pick(r, g.s.query.Fields).Name)
 		g.feat("name:fragLikeGenerated")
 	}
+	if g.rate(g.o.RateFragKeyTwin) && len(td.Fields) > 0 {
+		// named exactly like a lower-case field of its type: the Go type of the spread (`id`) and the Go field of the
+		// key (`Id`) differ, so this is valid input; fragment type names and response keys are separate namespaces
+		f := proto.Pick(r, td.Fields).Name
+		if f != "" && f[0] >= 'a' && f[0] <= 'z' && !strings.Contains(f, "_") && !g.topNorms[norm(f)] && !goKeywordSet[f] && f != "on" && !goPredeclared[f] && !g.prefixClash(f) {
+			g.feat("name:fragLikeFieldKey")
+			g.topNorms.add(f)
+			g.fragNorms.add(f)
+			g.prefixNames = append(g.prefixNames, f)
+			if td.Kind != kObject {
+				for _, p := range g.s.possible[td.Name] {
+					g.topNorms.add(f + upperFirst(p))
+					g.fragNorms.add(f + upperFirst(p))
+				}
+			}
+			return f
+		}
+	}
 	ok := func(c string) bool {
 		n := norm(c)
 		if g.topNorms[n] || g.fieldNorms[n] || goKeywordSet[c] || c == "on" {
